@@ -86,7 +86,7 @@ def cases(tier, seed):
     for i in range(n):
         r = core.rng_for(seed, 'c05set', i)
         yield gen_set_case(r, i)
-    dups = ['exe-exe', 'obj-obj', 'copy-copy', 'step-step', 'exe-step', 'lib-lib', 'obj-implicit']
+    dups = sorted(DUPS)
     for i, d in enumerate(dups):
         for backend in ('make', 'ninja'):
             yield {'kind': 'dup', 'backend': backend, 'flavour': d}
@@ -313,6 +313,22 @@ DUPS = {
     'lib-lib': "static_library('l', files=['a.c'])\nstatic_library('l', files=['b.c'])\n",
     'obj-implicit': "object_file('t.int/a', file='b.c')\nexecutable('t', files=['a.c'])\n",
 }
+
+
+def _step(names):
+    names = names[0] if len(names) == 1 else names
+    return "build_step(%r, cmd=['vrec', '--touch', build_step.output, '--end'])\n" % (names,)
+
+
+# a multi-output step and a second producer of ONE of its outputs, for every position of the
+# shared name in the list and both orders of the two rules
+for _pos, _outs in (('first', ['x.gen', 'm1.gen', 'm2.gen']), ('middle', ['m1.gen', 'x.gen', 'm2.gen']),
+                    ('last', ['m1.gen', 'm2.gen', 'x.gen']), ('first-of-two', ['x.gen', 'm1.gen']),
+                    ('last-of-two', ['m1.gen', 'x.gen'])):
+    for _second, _text in (('copy', "copy_file('x.gen', 'a.c')\n"), ('step', _step(['x.gen'])),
+                           ('multi', _step(['n1.gen', 'x.gen']))):
+        DUPS['multi-%s-then-%s' % (_pos, _second)] = _step(_outs) + _text
+        DUPS['%s-then-multi-%s' % (_second, _pos)] = _text + _step(_outs)
 
 
 def run_dup(case, res):
